@@ -20,6 +20,7 @@ class Adapter:
     noop: Optional[int] = None  # per-agent no-op index in multi-agent envs
     fork_every = 1  # C04/C05: fork on every k-th visited state (expensive envs use 4)
     max_enum = 4096
+    run_scale = 3  # quick-tier run multiplier: cheap envs get 3x the base run count, expensive ones 1x
 
     # ---- configuration ---------------------------------------------------------------------
     def configs(self) -> List[Dict[str, Any]]:
